@@ -350,3 +350,28 @@ pub proof fn c08_history(gs: Seq<ConsumerGroup>, es: Seq<GroupEvent>, t: int)
         assert(es.take(t).last() == es[t - 1]);
     }
 }
+
+// ---- LINK harnesses: the contracts other units ASSUME for functions proved here, proved from the real ones ---------------------
+// Each harness has the assuming unit's stub signature, its `requires` / `ensures` copied VERBATIM from that unit's prelude.rs, and a
+// body that is ONE call of the real extracted function: Verus proves "real contract ==> assumed contract" on every run.
+// A later edit of a stub has to be mirrored here (and vice versa).
+
+// `cg_current` is an UNINTERPRETED function of (group, member id) in unit consumer_offsets, whose ConsumerGroup keeps the member table
+// as an opaque component (`GroupMembers`): "reads the member's current partition: a function of the group state". Here it is that
+// function over the real member table ([C08.current.member], [C08.current.value], [C08.shape.current.err]): a projection.
+pub open spec fn cg_current(g: &ConsumerGroup, member_id: u32) -> Result<Option<u32>, IggyError> {
+    if g.members@.contains_key(member_id) {
+        Ok(g.members@[member_id].current_partition_id)
+    } else {
+        Err(IggyError::ConsumerGroupMemberNotFound(member_id, g.group_id, g.topic_id))
+    }
+}
+impl ConsumerGroup {
+    // copied from units/consumer_offsets/prelude.rs, stub `ConsumerGroup::get_current_partition_id`
+    // label: C08.link.consumer_offsets.get_current_partition_id
+    pub fn link_consumer_offsets_get_current_partition_id(&self, member_id: u32) -> (r: Result<Option<u32>, IggyError>)
+        ensures r == cg_current(self, member_id),
+    {
+        self.get_current_partition_id(member_id)
+    }
+}
